@@ -75,6 +75,8 @@ def cases(tier, seed):
                 for n2 in (0, 1, ml - 5 if ml < 100 else 9):
                     if n != n2:
                         yield {'cls': name, 'maxlen': ml, 'dslen': n, 'pc': 7, 'resend': n2}
+                        # ... while the provider thread has not yet consumed the first one (it goes out as it was sent)
+                        yield {'cls': name, 'maxlen': ml, 'dslen': n, 'pc': 7, 'resend': n2, 'lazy': True}
     # 4. context ids
     for pc in range(1, 256, 2):
         for ml, n in ((7, 3), (20, 29), (16384, 100)):
@@ -115,6 +117,10 @@ def _run(case, source, tmpdir):
         # the association was created with the local default and negotiated down/up to maxlen afterwards
         assoc = asceprovider.Association(stubs.FakeAE(), None, 65536 if case['maxlen'] != 65536 else 16384)
         assoc.max_pdu_length = case['maxlen']
+        kept = []
+        if case.get('lazy'):
+            assoc.dul.send = kept.append          # queue only, like the real provider
+        first_raw = raw
         assoc.send(msg, case['pc'])
         if 'resend' in case:
             # what the C-FIND / C-MOVE providers do: the same object again with another (or no) data set
@@ -127,6 +133,8 @@ def _run(case, source, tmpdir):
             else:
                 msg.data_set = io.BytesIO(raw)
             assoc.send(msg, case['pc'])
+        if case.get('lazy'):
+            return msg, first_raw, list(kept[0])
         pdus = assoc.dul.sent[-1]
     return msg, raw, pdus
 
@@ -143,7 +151,7 @@ def run_case(case):
     sources = ('bytes', 'bytesio', 'file', 'bytesio-offset', 'file-offset') if case['dslen'] else ('bytes',)
     if 'resend' in case:
         sources = ('bytes', 'bytesio')
-    dslen_eff = case.get('resend', case['dslen'])
+    dslen_eff = case['dslen'] if case.get('lazy') else case.get('resend', case['dslen'])
     for source in sources:
         try:
             msg, raw, pdus = _run(case, source, tmpdir)
@@ -154,7 +162,8 @@ def run_case(case):
         seqs[source] = enc
         cmd, data, flags = msggen.collect(pdus)
         hdrs = [f[1] for f in flags]
-        where = 'maxlen=%d dslen=%d source=%s pc=%d%s' % (ml, dslen_eff, source, pc, ' (second send of the same object, first had %d data bytes)' % case['dslen'] if 'resend' in case else '')
+        where = 'maxlen=%d dslen=%d source=%s pc=%d%s' % (ml, dslen_eff, source, pc, (' (first send, consumed after the object was sent again with %d data bytes)' % case['resend'] if case.get('lazy') else
+                                                                  ' (second send of the same object, first had %d data bytes)' % case['dslen']) if 'resend' in case else '')
         for p in pdus:
             if len(p.data_value_items) != 1:
                 viol.append((sig + ':pdv-count', '%d PDVs in one P-DATA-TF (%s)' % (len(p.data_value_items), where)))
@@ -178,7 +187,7 @@ def run_case(case):
         probs = ref_cmd.well_formed(cmd, ref_cmd.COMMAND_FIELD[name], has_dataset=bool(dslen_eff))
         if probs:
             viol.append((sig + ':command-content', 'reassembled command set malformed: %s (%s)' % (probs[0], where)))
-        if cmd != dsutils.encode(msg.command_set, True, True):
+        if not case.get('lazy') and cmd != dsutils.encode(msg.command_set, True, True):
             viol.append((sig + ':command-bytes', 'concatenated command fragments differ from the encoded command set (%s)' % where))
         # wire form of each PDU under the reference parser
         for e, p in zip(enc, pdus):
